@@ -748,10 +748,16 @@ func verifH_E2E() {
 	}
 	withReqMD := (inG(0) && verifBool("callerAttachesMetadata")) || binWhere == 0
 	var reqMD metadata.MD
+	viaCreds := false // the binary value comes from per-RPC credentials (a binary token), not from the context
+	var callCreds *vCreds
 	if binWhere == 0 {
-		reqMD = metadata.MD{"rk-bin": {"\xc3\xa9\x00"}, "plain": {"v"}}
+		bv := "\xc3\xa9\x00"
 		if binInvalid {
-			reqMD["rk-bin"] = []string{"\xff\xfe"}
+			bv = "\xff\xfe"
+		}
+		reqMD = metadata.MD{"rk-bin": {bv}, "plain": {"v"}}
+		if viaCreds = verifBool("binaryValueFromCredentials"); viaCreds {
+			callCreds = &vCreds{pairs: map[string]string{"rk-bin": bv}}
 		}
 	} else if withReqMD {
 		reqMD = vE2EMD("rmd", "rk")
@@ -865,7 +871,11 @@ func verifH_E2E() {
 	// ---- the RPC
 	ctx := context.Background()
 	if withReqMD {
-		ctx = metadata.NewOutgoingContext(ctx, reqMD.Copy())
+		out := reqMD.Copy()
+		if viaCreds {
+			delete(out, "rk-bin") // that one is added by the credentials
+		}
+		ctx = metadata.NewOutgoingContext(ctx, out)
 	}
 	// (the caller cancels with a cause, as context.WithCancelCause allows: the outcome is Canceled all the same)
 	ctx, cancelCause := context.WithCancelCause(ctx)
@@ -917,14 +927,22 @@ func verifH_E2E() {
 			// a unary call is one blocking operation: the event strikes from another goroutine
 			verifGo("striker", func() { strike(when) })
 		}
-		final = ch.Invoke(ctx, method, &wrapperspb.BytesValue{Value: reqs[0]}, resp, grpc.Header(&hdrT), grpc.Trailer(&tlrT), WithTunnelChannel(&usedCh), grpc.Peer(&callPeer), WithTunnelChannel(&usedCh2))
+		opts := []grpc.CallOption{grpc.Header(&hdrT), grpc.Trailer(&tlrT), WithTunnelChannel(&usedCh), grpc.Peer(&callPeer), WithTunnelChannel(&usedCh2)}
+		if callCreds != nil {
+			opts = append(opts, grpc.PerRPCCredentials(callCreds))
+		}
+		final = ch.Invoke(ctx, method, &wrapperspb.BytesValue{Value: reqs[0]}, resp, opts...)
 		if final == nil {
 			got = append(got, resp.Value)
 		}
 		finished = true
 	} else {
 		var err error
-		st, err = ch.NewStream(ctx, &grpc.StreamDesc{ClientStreams: cs, ServerStreams: ss}, method, grpc.Header(&hdrT), grpc.Trailer(&tlrT), WithTunnelChannel(&usedCh), WithTunnelChannel(&usedCh2))
+		opts := []grpc.CallOption{grpc.Header(&hdrT), grpc.Trailer(&tlrT), WithTunnelChannel(&usedCh), WithTunnelChannel(&usedCh2)}
+		if callCreds != nil {
+			opts = append(opts, grpc.PerRPCCredentials(callCreds))
+		}
+		st, err = ch.NewStream(ctx, &grpc.StreamDesc{ClientStreams: cs, ServerStreams: ss}, method, opts...)
 		if binInvalid && (binWhere == 0 || binWhere == 4) && err != nil {
 			// the RPC is refused at the start because its metadata cannot be carried (F9): the
 			// refusal must stay an affair of this RPC - the rest of the harness checks the tunnel
